@@ -404,13 +404,11 @@ def d3_guard(chk, F):
         else:
             b, t, which, _ = good[0]
             d = operand_local({"move": t["dest"]})
-            sws = [(sb, st) for sb, st in f.iter_terms("switch") if operand_local(st["discr"]) == t["dest"]["l"]]
-            ok = False
-            if sws:
-                sb, st = sws[0]
-                zero = [x[1] for x in st["targets"] if x[0] == "0"][0]
-                equal_edge = (sb, zero) if which == "ne" else (sb, st["otherwise"])
-                ok = all(f.edge_dominates(equal_edge, x) for x in tgt)
+            # edges on which the two quantities are known equal; bool_edges follows copies and `!` (a hoisted `let same = a == b;`)
+            from cfgq import bool_edges
+            te, fe = bool_edges(f, t["dest"]["l"])
+            equal_edges = fe if which == "ne" else te
+            ok = bool(equal_edges) and all(any(f.edge_dominates(e_, x) for e_ in equal_edges) for x in tgt)
             chk.expect(ok, "C09.D3-guard", "convert_to_unit", f.where(tgt[0]),
                        "the conversion in convert_to_unit is not guarded by equality of the two physical quantities (guard removed or inverted)",
                        sample=f"{f.where(tgt[0])}: convert_value dominated by physical_quantity equality ({which} at {f.where(b)})")
